@@ -43,6 +43,8 @@ PICK = [
     ('C13', lambda r, d, c: r == 'C13.i', 'C17.f'),
     ('C03', lambda r, d, c: r == 'C03.e' and 'leaf pages cover' in (c or ''), 'C17.c'),
     ('C03', lambda r, d, c: r == 'C03.a' and 'small-scope' in (c or ''), 'C17.c'),
+    ('C16', lambda r, d, c: r in ('C16.c', 'C16.d') and ('state' in d or '_sindex' in d), 'C17.f'),
+    ('C08', lambda r, d, c: r in ('C08.b', 'C08.e', 'C08.j') and ('reduction' in d or 'NaN' in d or 'total_bounds' in d), 'C17.f'),
     ('C03', lambda r, d, c: r == 'C03.c' and d.startswith('[C13.a]'), 'C17.c'),
     ('C01', lambda r, d, c: r == 'C01.n', 'C17.e'),
     ('C13', lambda r, d, c: r == 'C13.a' and ('small-scope' in (c or '') or 'coverage' in (c or '') or 'sentinel' in (c or '')), 'C17.f'),
